@@ -310,6 +310,19 @@ impl<T: Clone + Into<Vec<u8>>> FindNodeContext<T> {
     }
 }
 
+#[cfg(feature = "verif")]
+impl<T: Clone + Into<Vec<u8>>> FindNodeContext<T> {
+    /// Verification hook: overwrite the peer timeout.
+    pub fn verif_set_peer_timeout(&mut self, timeout: std::time::Duration) {
+        self.peer_timeout = timeout;
+    }
+
+    /// Verification hook: the counter compared against the parallelism factor.
+    pub fn verif_pending_responses(&self) -> usize {
+        self.pending_responses
+    }
+}
+
 #[cfg(test)]
 mod tests {
     use super::*;
